@@ -67,7 +67,8 @@ BOUNDS = (
     "clones change), iteration while mutating, every wrapper API (insert_element, __setitem__, update, add, "
     "delete_key, __delitem__, pop, discard, remove, delete_exact), all trees checked after every mutation; "
     "quick one round (~8k steps), thorough rounds until 480 s (~400k steps). "
-    "Not covered: key types with an inconsistent order, t > 127, more than one thread."
+    "Not covered: key types with an inconsistent order, t > 127, more than one thread. Nothing in this "
+    "property needs the cryptography package, so its absence costs no coverage."
 )
 
 _VAL = itertools.count(1)
@@ -759,8 +760,11 @@ def replay(data):
     for f in fails:
         if (f[0], f[1]) == want:
             return True, f"{f[0]} {f[1]}: {f[2]}"
-    f = fails[0]
-    return True, f"(different check) {f[0]} {f[1]}: {f[2]}"
+    if want == (None, None):
+        f = fails[0]
+        return True, f"{f[0]} {f[1]}: {f[2]}"
+    others = sorted({f[1] for f in fails})
+    return False, f"the recorded check {want[1]!r} no longer fails on this script (other checks that fail: {others})"
 
 
 # --------------------------------------------------------------------------- A: insertion orders
